@@ -352,6 +352,18 @@ func ruleHeartbeat() *Rule {
 							if strings.Contains(s, "isSingleServerCluster") || strings.Contains(s, "len(r.configuration.Members)") {
 								continue
 							}
+							// a branch both of whose arms come back to the go statement decides nothing about it
+							both := true
+							for _, sc := range bb.Succs {
+								if sc != b && !blockReaches(sc, b) {
+									both = false
+								}
+							}
+							if both {
+								if _, inLoop := g.Common().Args[1].(*ssa.Extract); !inLoop || !blockReaches(b, bb) {
+									continue
+								}
+							}
 							conds = append(conds, s)
 						}
 					}
